@@ -42,6 +42,9 @@ def build_polygon(s, name=None):
     if s.get("buffer") is not None:
         poly = poly.buffer(s["buffer"])
     poly.name = name
+    if s.get("mesh_flag") is not None:
+        # Polygon.mesh as it is inherited when a polygon (or a copy / transform of one) was used as a terminal before
+        poly.mesh = bool(s["mesh_flag"])
     return poly
 
 
